@@ -1,6 +1,7 @@
 // @append-to: src/ber/objectid.rs
-// Native sampling finder for the BER -> dotted text conversion (used only behind a failed / undecided obligation of
-// C02 / C08 on String::try_from(&SnmpOid)). Contents octets are built by an independent base-128 encoder from arc lists.
+// Native sampling finder for OID decode and the BER -> dotted text conversion (used only behind a failed / undecided obligation of
+// C02 / C08 on SnmpOid::decode and String::try_from(&SnmpOid)). Contents octets are built by an independent base-128 encoder from
+// arc lists and handed over as OBJECT IDENTIFIER elements through the crate's decoder, which must take every one of them verbatim.
 #[cfg(test)]
 mod verif_find_oidprint {
     use super::*;
@@ -22,6 +23,20 @@ mod verif_find_oidprint {
         }
         out
     }
+    // the OID as it arrives: an OBJECT IDENTIFIER element through the crate's decoder (contents kept verbatim, nothing refused)
+    fn decoded(c: &[u8]) -> SnmpOid<'static> {
+        let mut tlv = vec![0x06u8];
+        if c.len() < 128 {
+            tlv.push(c.len() as u8);
+        } else {
+            tlv.extend_from_slice(&[0x81, c.len() as u8]);
+        }
+        tlv.extend_from_slice(c);
+        let (rest, oid) = SnmpOid::from_ber(&tlv).unwrap_or_else(|_| panic!("well-formed OID contents {:02x?} refused by the decoder", c));
+        assert!(rest.is_empty(), "octets left after an OID element that fills its input");
+        assert_eq!(oid.0.as_ref(), c, "decoded OID contents differ from the contents octets");
+        SnmpOid::from(oid.0.to_vec())
+    }
     fn text(arcs: &[u64]) -> String {
         arcs.iter().map(|a| a.to_string()).collect::<Vec<_>>().join(".")
     }
@@ -36,14 +51,14 @@ mod verif_find_oidprint {
             for y in 0..40u64 {
                 let arcs = [x, y, 6, 1];
                 let c = contents(&arcs);
-                assert_eq!(String::try_from(&SnmpOid::from(c.clone())).ok(), Some(text(&arcs)), "contents {:02x?}", c);
+                assert_eq!(String::try_from(&decoded(&c)).ok(), Some(text(&arcs)), "contents {:02x?}", c);
             }
         }
         for &v in vals.iter() {
             for &w in [0u64, 5, 300, 0xffff_ffff].iter() {
                 let arcs = [1, 3, 6, v, w, 1];
                 let c = contents(&arcs);
-                assert_eq!(String::try_from(&SnmpOid::from(c.clone())).ok(), Some(text(&arcs)), "contents {:02x?}", c);
+                assert_eq!(String::try_from(&decoded(&c)).ok(), Some(text(&arcs)), "contents {:02x?}", c);
             }
         }
         // X.690 8.19.4: under joint-iso-itu-t(2) the second arc is not limited to 39, the first sub-identifier may take
@@ -51,7 +66,7 @@ mod verif_find_oidprint {
         for y in [40u64, 47, 48, 100, 999, 16000, 0xffff_ff00] {
             let arcs = [2, y, 3];
             let c = contents(&arcs);
-            assert_eq!(String::try_from(&SnmpOid::from(c.clone())).ok(), Some(text(&arcs)), "contents {:02x?}", c);
+            assert_eq!(String::try_from(&decoded(&c)).ok(), Some(text(&arcs)), "contents {:02x?}", c);
         }
         // nothing to print
         assert!(String::try_from(&SnmpOid::from(Vec::new())).is_err());
